@@ -32,6 +32,29 @@ Wb.ICalendarFile = mstore.MCal
 Wb.VCardFile = mstore.MVcf
 
 
+# CrossHair bypasses functools.lru_cache while tracing (every call re-executes the wrapped function), which
+# would silently turn the web layer's process-wide store cache off.  The cache is therefore made explicit: the
+# REAL function body (lru_cache's __wrapped__) behind an association list with lru_cache's contract (same
+# arguments -> same object until cache_clear(); STORE_CACHE_SIZE = 128 is never reached here).  No hashing, so
+# symbolic paths are not concretised.
+_REAL_OPEN_STORE = Wb.open_store_from_path.__wrapped__
+_STORE_CACHE = []
+
+
+def _open_store_from_path(path, **kwargs):
+    key = (path, sorted(kwargs.items()))
+    for (k, v) in _STORE_CACHE:
+        if k == key:
+            return v
+    store = _REAL_OPEN_STORE(path, **kwargs)
+    _STORE_CACHE.append((key, store))
+    return store
+
+
+_open_store_from_path.cache_clear = _STORE_CACHE.clear
+Wb.open_store_from_path = _open_store_from_path
+
+
 async def _render(name, accepted_content_languages, **kwargs):
     body = b"<html>" + name.encode("utf-8") + b"</html>"
     return ([body], len(body), None, "text/html; encoding=utf-8", ["en-UK"])
